@@ -192,9 +192,21 @@ impl fmt::Display for HumanFloatCount {
         let num = format!("{:.*}", precision, self.0);
 
         let (int_part, frac_part) = match num.split_once('.') {
-            Some((int_str, fract_str)) => (int_str.to_string(), fract_str),
-            None => (self.0.trunc().to_string(), ""),
+            Some((int_str, fract_str)) => (int_str, fract_str),
+            // With a precision of 0 `num` is the value rounded to an integer
+            None => (num.as_str(), ""),
         };
+        // The sign is not a digit, and `inf` and `NaN` have no digits to group at all
+        let int_part = match int_part.strip_prefix('-') {
+            Some(digits) => {
+                f.write_char('-')?;
+                digits
+            }
+            None => int_part,
+        };
+        if !int_part.bytes().all(|b| b.is_ascii_digit()) {
+            return f.write_str(int_part);
+        }
         let len = int_part.len();
         for (idx, c) in int_part.chars().enumerate() {
             let pos = len - idx - 1;
